@@ -286,6 +286,20 @@ func (c *ControlChannel) RecvZLB(nr uint16, now time.Time) {
 	c.ackThrough(nr, now)
 }
 
+// FlushAck emits the owed ZLB acknowledgement right now instead of at
+// zlbDeadline. Used when the owner is about to stop driving the channel
+// (tunnel teardown on StopCCN): the timer would never fire and the peer
+// would retransmit a message we have already accepted until it gives up.
+func (c *ControlChannel) FlushAck() {
+	c.mu.Lock()
+	defer c.mu.Unlock()
+	if c.zlbDeadline.IsZero() {
+		return
+	}
+	_ = c.send(nil, 0, c.ns, c.nr)
+	c.zlbDeadline = time.Time{}
+}
+
 // ackThrough removes all queued messages with ns < ackNr from the
 // queue and grows the congestion window per slow-start rules. The
 // retransmit timer is recomputed.
